@@ -42,7 +42,7 @@ def find_queries():
 @prop('C02')
 def c02():
     return dict(
-        queries=find_queries() + stack_queries(2),
+        queries=find_queries() + stack_queries(2) + plumb_queries(2, (2, 3, 4, 5)),
         level='model_checking',
         level_text='Bounded: the real find<Sig>() selection loop is decided against the C02 selection rule for every match/cost vector of lists up to the stated length.',
         bound='find<Sig>: list length N<=4 (quick) / <=6 (thorough), all 2^N match vectors x all 32-bit cost vectors',
@@ -61,6 +61,13 @@ def stack_queries(nn, quick_shapes=((1, 0), (1, 1), (2, 0), (2, 1), (2, 2)), tho
     return qs
 
 
+def plumb_queries(nn, scenes):
+    return [Q('plumb_scene%d' % sc, 'api/plumb.cpp', 8, defs={'VF_SCENE': sc, 'VF_CLAIM': nn}, timeout=600) for sc in scenes]
+
+
+PLUMB_BOUND = 'api/plumb: straight-line scenes (concrete control, symbolic argument / return values) for lifetimes, isolation, shadowing, TIMES forms, RT_TIMES inversion, mock move'
+
+
 STACK_BOUND = ('api/stack: N<=2 (quick) / N<=3 (thorough) live expectations f(ge(lo)).WITH(_1<=hi) on one int(int) mock function, every '
                'pre-saturation pattern, all 64-bit (L,H,count) per expectation under the stated invariant, all 32-bit lo/hi/argument, one call')
 
@@ -69,7 +76,7 @@ STACK_BOUND = ('api/stack: N<=2 (quick) / N<=3 (thorough) live expectations f(ge
 @prop('C01')
 def c01():
     return dict(
-        queries=find_queries() + stack_queries(1),
+        queries=find_queries() + stack_queries(1) + plumb_queries(1, (1, 2)) + [q for q in mismatch_queries(1) if q['tier'] == 'quick' and q['defs']['VF_NA'] + q['defs']['VF_NS'] <= 2],
         level='model_checking',
         level_text='Bounded: real find<Sig>() for all match/cost vectors; one real mock call against N<=2(3) real stacked expectations from an arbitrary invariant-satisfying counter state with arbitrary matcher operands and argument: accepted iff the designated candidate exists and is not forbidding, otherwise exactly one fatal report and no effect.',
         bound=STACK_BOUND + '; find<Sig> list length <=4 (6)',
@@ -86,7 +93,7 @@ def c03():
     for r in (1, 2):
         qs.append(Q('run_regime%d' % r, 'C03/run.cpp', 4, tier='thorough', defs={'VF_REGIME': r}, timeout=600))
     return dict(
-        queries=qs + stack_queries(3),
+        queries=qs + stack_queries(3) + plumb_queries(3, (7, 8, 9)) + [Q('mismatch_A1_S1_15', 'C15/mismatch.cpp', 14, defs={'VF_NA': 1, 'VF_NS': 1, 'VF_C0': 1, 'VF_C1': 5, 'VF_CLAIM': 3})],
         level='model_checking',
         level_text='Bounded/inductive: counter predicates for all 64-bit (L,H,count); one real mock call from an arbitrary invariant-satisfying counter state moves the expectation to the saturated list iff count reaches H, stacked or alone.',
         bound='one step from an arbitrary counter state; ' + STACK_BOUND,
@@ -98,7 +105,7 @@ def c03():
 @prop('C07')
 def c07():
     return dict(
-        queries=stack_queries(7) + [Q('run_forbidden', 'C03/run.cpp', 4, defs={'VF_REGIME': 0})],
+        queries=stack_queries(7) + [Q('run_forbidden', 'C03/run.cpp', 4, defs={'VF_REGIME': 0})] + plumb_queries(7, (6,)),
         level='model_checking',
         level_text='Bounded: a forbidding (H==0) designated candidate yields exactly one fatal report with its location, no count change, no side effect, stays active, satisfied and saturated; non-matching calls pass it by.',
         bound=STACK_BOUND,
@@ -134,6 +141,7 @@ def c08():
 @prop('C04')
 def c04():
     qs = [Q('dtor_order%d' % o, 'C04/dtor.cpp', 10, defs={'VF_ORDER': o, 'VF_CLAIM': 4}, timeout=600) for o in (0, 1, 2, 3)]
+    qs += plumb_queries(4, (10,)) + [q for q in mismatch_queries(4) if q['tier'] == 'quick' and q['defs']['VF_NA'] <= 1]
     return dict(
         queries=qs,
         level='model_checking',
@@ -212,7 +220,7 @@ def c14():
                 qs.append(Q('list_N%d_op%d_pos%d' % (n, op, pos), 'C14/list.cpp', n + 4, tier='quick' if n <= 3 else 'thorough',
                             defs={'VF_N': n, 'VF_OP': op, 'VF_POS': pos}, tv=(n == 3 and pos == 0)))
     return dict(
-        queries=qs + death_queries(14) + [Q('dtor_order%d' % o, 'C04/dtor.cpp', 10, defs={'VF_ORDER': o, 'VF_CLAIM': 14}, timeout=600) for o in (1, 3)],
+        queries=qs + death_queries(14) + [Q('dtor_order%d' % o, 'C04/dtor.cpp', 10, defs={'VF_ORDER': o, 'VF_CLAIM': 14}, timeout=600) for o in (1, 3)] + plumb_queries(14, (10,)),
         level='model_checking',
         level_text='Bounded: intrusive list primitives keep the ring invariant at every position of rings up to 4; every short destruction/copy/move/assignment history of a deathwatched object and its requirements, and mock-before-expectation destruction, run without touching freed or dead memory (CBMC pointer checks on every dereference of the IR-derived code).',
         bound='list rings n<=3 (4), every position, ops {push, unlink, move-ctor, move-assign, list move, dtor}; ' + DEATH_BOUND,
@@ -321,6 +329,41 @@ def c10():
     )
 
 
+# ------------------------------------------------------------------------------------------- C15
+def mismatch_queries(nn, quick_na=2, quick_ns=1):
+    qs = []
+    i = 0
+    for na in range(0, 4):
+        for ns in range(0, 3):
+            if na + ns == 0 or na + ns > 4: continue
+            for act in itertools.product(range(5), repeat=na):
+                for sat in itertools.product(range(6), repeat=ns):
+                    quick = na <= quick_na and ns <= quick_ns
+                    if not quick and (hash((act, sat)) % 5): continue       # a fifth of the larger shapes in the thorough tier
+                    oc = list(act) + list(sat)
+                    defs = {'VF_NA': na, 'VF_NS': ns, 'VF_CLAIM': nn}
+                    for k, v in enumerate(oc): defs['VF_C%d' % k] = v
+                    qs.append(Q('mismatch_A%d_S%d_%s' % (na, ns, ''.join(map(str, oc))), 'C15/mismatch.cpp', 14, tier='quick' if quick else 'thorough',
+                                defs=defs, tv=(i % 13 == 0), timeout=300))
+                    i += 1
+    return qs
+
+
+@prop('C15')
+def c15():
+    qs = mismatch_queries(15)
+    qs += [Q('dtor_order%d' % o, 'C04/dtor.cpp', 10, defs={'VF_ORDER': o, 'VF_CLAIM': 15}, timeout=600) for o in (0, 1)]
+    qs += [q for q in death_queries(15) if q['tier'] == 'quick' and len(q['name']) <= len('death_multi_12')]
+    qs += seqstep_queries(15, quick_only=3)
+    return dict(
+        queries=qs,
+        level='model_checking',
+        level_text='Bounded: the no-match report is one fatal report whose token structure is: header, arguments, then either exactly the matching saturated expectations or one Tried block per live expectation, newest first, with Expected lines for exactly the rejecting parameters or the Failed WITH line iff all parameters fit; end-of-life, lifetime and sequence reports carry the right severity and the expectation\'s location. Outcome patterns are shapes (concrete control); the solver contributes memory safety and the token bookkeeping.',
+        bound='<=2 live + <=1 saturated expectations (quick), <=3 + <=2 (thorough, a fifth sampled), two parameters, two WITH clauses, every outcome pattern; severity obligations inside the C04, C13 and C05 harnesses',
+        outside='text rendering of values (C18), forbidden-call report text',
+    )
+
+
 # ------------------------------------------------------------------------------------------- C17
 def trace_shapes(maxlen):
     out = []
@@ -385,7 +428,7 @@ def c18():
 @prop('C16')
 def c16():
     return dict(
-        queries=stack_queries(16),
+        queries=stack_queries(16) + plumb_queries(16, (6, 7)) + seqstep_queries(16, quick_only=3),
         level='model_checking',
         level_text='Bounded: exactly one OK report per accepted call carrying the handling expectation\'s text; none for rejected/forbidden calls.',
         bound=STACK_BOUND,
